@@ -756,14 +756,18 @@ def c10_binary(V, tier):
     disk = "import pytest\n\n\n@pytest.fixture\ndef on_disk():\n    return 1\n\n\ndef test_d(on_disk):\n    pass\n"
     buf = "import pytest\n\n\n@pytest.fixture\ndef in_buffer():\n    return 1\n\n\ndef test_b(in_buffer):\n    pass\n"
     buf2 = "import pytest\n\n\n@pytest.fixture\ndef second():\n    return 2\n"
+    bufm = "import pytest\n\n\n@pytest.fixture\ndef mid_edit():\n    return 3\n\n\ndef test_m(mid_edit):\n    pass\n"
     # link: the document is a SYMLINK inside the workspace to a file outside it (the scan meets the link while walking,
     # the editor names it by URI): both must address one and the same index entry
     jobs = [(i, early, same, link) for i in range(12 if tier == "quick" else 100) for early in (True, False) for same in (True, False)
             for link in ((False, True) if i % 3 == 0 else (False,))]
+    # "opened OR EDITED while the scan is still running": didOpen and a didChange go out back to back right after initialize,
+    # nothing is awaited until the scan has finished (early = "edit")
+    jobs += [(i, "edit", same, False) for i in range(8 if tier == "quick" else 60) for same in (True, False)]
 
     def session(job):
         i, early, same, link = job
-        root = os.path.join(base, "s%d_%d_%d_%d" % (i, early, same, link), "ws")
+        root = os.path.join(base, "s%d_%s_%d_%d" % (i, early, same, link), "ws")
         os.makedirs(os.path.join(root, "pkg"), exist_ok=True)
         for k in range(150):
             with open(os.path.join(root, "pkg", "test_fill_%d.py" % k), "w") as fh:
@@ -782,8 +786,17 @@ def c10_binary(V, tier):
         srv = lsp.Server(timeout=40)
         try:
             srv.initialize(root, wait_scan=not early)
-            srv.did_open(f, text)
-            if early:
+            if early == "edit":
+                import time
+                srv.did_open(f, text, wait_diag=False)
+                srv.did_change(f, bufm, version=2, wait_diag=False)
+                srv.wait_log("Workspace scan complete", also_fail="Workspace scan failed")
+                deadline = time.time() + 30
+                while time.time() < deadline and len(srv.diagnostics.get(lsp.path_to_uri(f), [])) < 2:
+                    time.sleep(0.02)
+            else:
+                srv.did_open(f, text)
+            if early is True:
                 srv.wait_log("Workspace scan complete", also_fail="Workspace scan failed")
 
             def names():
@@ -797,9 +810,9 @@ def c10_binary(V, tier):
             first = names()
             # "one further change notification": first one that carries the SAME text again (format-on-save, undo/redo under
             # full sync), then one with new content
-            srv.did_change(f, text, version=2)
+            srv.did_change(f, bufm if early == "edit" else text, version=3)
             same_again = names()
-            srv.did_change(f, buf2, version=3)
+            srv.did_change(f, buf2, version=4)
             after = names()
             return {"first": first, "same_again": same_again, "after": after, "alive": srv.alive()}
         except (lsp.ServerDied, lsp.Timeout) as e:
@@ -818,7 +831,7 @@ def c10_binary(V, tier):
         if "error" in r:
             V.violation(ex, "server died while a document was opened during the workspace scan")
             continue
-        want = ["on_disk"] if same else ["in_buffer"]
+        want = ["mid_edit"] if early == "edit" else ["on_disk"] if same else ["in_buffer"]
         if r["same_again"] != want:
             V.violation(ex, "a further change notification carrying the same text does not restore the single-analysis state (real binary)")
         if r["after"] != ["second"]:
